@@ -94,13 +94,15 @@ func verifKnownType(s string) bool {
 // ---------------- stubs ----------------
 
 var (
-	verifLoopback  bool        // Unmarshal returns the last marshalled value
-	verifMarshaled interface{} // the value last handed to json.Marshal
-	verifMarshals  int
-	verifBody      = []byte("BODY")
+	verifDirectLoopback bool        // (fingerprint job) the document is set directly, not through an encoder
+	verifLoopback       bool        // Unmarshal returns the last marshalled value
+	verifMarshaled      interface{} // the value last handed to json.Marshal
+	verifMarshals       int
+	verifBody           = []byte("BODY")
 )
 
 func verifJSONMarshal(v interface{}) ([]byte, error) {
+	k := verifMarshals
 	verifMarshals++
 	switch x := v.(type) {
 	case *ClientPollRequest:
@@ -110,8 +112,15 @@ func verifJSONMarshal(v interface{}) ([]byte, error) {
 	default:
 		verifMarshaled = v
 	}
+	// every encoding is a fresh byte slice that names the document it stands for, so that a
+	// decoder sees which document it was given (an encoder that hands out a recycled buffer shows)
+	verifapi.Assert(k < len(verifMarshaledTab), "harness: more documents than the table holds")
+	verifMarshaledTab[k] = verifMarshaled
+	verifBody = []byte{'B', 'O', 'D', 'Y', byte('0' + k)}
 	return verifBody, nil
 }
+
+var verifMarshaledTab [8]interface{}
 
 var (
 	verifInPPReq ProxyPollRequest
@@ -203,7 +212,17 @@ func verifJSONUnmarshal(data []byte, v interface{}) error {
 	if verifLoopback {
 		// Unmarshal(Marshal(x)) through the struct-tag model of encoding/json (engine/jsonmodel.go):
 		// member names, omitempty, pointers and kinds decide what arrives, not Go type identity
-		if !verifapi.JSONTransfer(verifMarshaled, v, nil) {
+		// which document is this? (the last byte of an encoding names it)
+		if len(data) != 5 || data[0] != 'B' || data[4] < '0' || int(data[4]-'0') >= verifMarshals {
+			if verifDirectLoopback {
+				if !verifapi.JSONTransfer(verifMarshaled, v, nil) {
+					return verifErrJSON
+				}
+				return nil
+			}
+			return verifErrJSON // not something an encoder produced
+		}
+		if !verifapi.JSONTransfer(verifMarshaledTab[int(data[4]-'0')], v, nil) {
 			return verifErrJSON
 		}
 		return nil
@@ -511,7 +530,7 @@ func VerifC12_Fingerprint() {
 	_ = m
 	verifInCReq = ClientPollRequest{Offer: "o", NAT: "", Fingerprint: fp}
 	verifFPLen, verifFPHex = l, hex
-	verifLoopback = true
+	verifLoopback, verifDirectLoopback = true, true
 	verifMarshaled = verifInCReq
 	var data []byte
 	if verifapi.Native() {
@@ -603,6 +622,10 @@ func VerifC12_RoundTripAnswer() {
 	if m, isMsg := verifMarshaled.(ProxyAnswerRequest); !verifapi.Native() && isMsg {
 		verifapi.Assert(m.Answer == answer && m.Sid == sid && verifMajorIs1(m.Version), "answer request: every field is the corresponding argument")
 	}
+	// another message is encoded before this one is decoded (a proxy answers several clients):
+	// an encoding stays what it was
+	_, err = EncodeAnswerRequest("other-answer", "other-sid")
+	verifapi.Assert(err == nil, "answer request encodes")
 	a2, s2, err := DecodeAnswerRequest(data)
 	verifapi.Cover("round trip: answer request")
 	verifapi.Assert(err == nil && a2 == answer && s2 == sid, "round trip: answer request fields")
